@@ -112,6 +112,10 @@ def run(ctx):
     ctx.floor('C19 with-blocks on map-yielding managers', n, 10)
     # D3: release on all exits
     pair_obligations(ctx, 'D3')
+    # D2b: each chunk is copied from the map inside the held context in the step that yields it (shared with C14 D1)
+    from .C14 import d1_copies
+    A_ = ctx.repo.cls('Array')
+    d1_copies(ctx, A_.methods['iterchunks'], A_.methods['iterindices'])
     # D4: holders do not pin a mode of their own (every write takes effect)
     from .C12 import d5_contexts
     d5_contexts(ctx)
